@@ -644,9 +644,39 @@ def line_needs_delimiter(m: Model, r: Report, rid: str) -> None:
     """LinesTransportMixin.read: a line that does not end with the delimiter is the remainder of a message whose sender died (readline
     returns it at end-of-stream); it must not be decoded and handed out as a message."""
     rd = m.require_function("gallia.transports.base.LinesTransportMixin.read")
-    lv = [n.targets[0].id for n in ast.walk(rd.node) if isinstance(n, ast.Assign) and isinstance(n.targets[0], ast.Name) and ".readline()" in ast.unparse(n.value)]
-    tests = [n for n in ast.walk(rd.node) if isinstance(n, ast.Call) and isinstance(n.func, ast.Attribute) and n.func.attr == "endswith" and isinstance(n.func.value, ast.Name)
-             and n.func.value.id in lv and n.args and isinstance(n.args[0], ast.Constant) and n.args[0].value in (b"\n", "\n")]
-    r.check(bool(lv) and bool(tests), rid, f"{rd.qualname}#incomplete-line",
-            "the line read from the stream is decoded without checking that it ends with the delimiter: when the peer dies in the middle of a message, readline() returns "
-            "the partial line at end-of-stream and read() delivers a truncated message as if it were complete", loc=rd.loc)
+    # evaluated over what readline() can hand back: a complete line is decoded, the unterminated rest of a message (and end-of-stream) is not a message
+    import binascii as _ba
+    from sa import miniterp as _mtl
+    from sa.model import AnalysisError as _AE
+    rpar = rd.params()
+
+    def run(line: bytes):
+        def orc(call, env_):
+            f_ = ast.unparse(call.func)
+            if f_ == "asyncio.wait_for" and call.args and ".readline()" in ast.unparse(call.args[0]):
+                return line
+            if f_.endswith(".readline"):
+                return line
+            if f_.split(".")[-1] == "unhexlify" and len(call.args) == 1:
+                v_ = _mtl.eval_expr(call.args[0], env_, orc)
+                try:
+                    return _ba.unhexlify(v_)
+                except (ValueError, TypeError) as ex_:
+                    raise _mtl.Raised(ast.Raise(exc=ast.Name(id=type(ex_).__name__, ctx=ast.Load()), cause=None))
+            return None
+        ret_, env_ = _mtl.run_function(rd.node, {p_: None for p_ in rpar[1:]}, orc)
+        return _mtl.eval_expr(ret_.value, env_, orc) if ret_ is not None and ret_.value is not None else None
+    bad, unk = [], None
+    try:
+        for line_, want in ((b"1003\n", b"\x10\x03"), (b"5003\r\n", b"\x50\x03"), (b"", b""), (b"10", b""), (b"2ef19011", b"")):
+            try:
+                got = run(line_)
+            except _mtl.Raised as ex_:
+                got = "raises " + (ast.unparse(ex_.node.exc)[:30] if ex_.node.exc is not None else "")
+            if got != want:
+                bad.append(f"readline() -> {line_!r}: read() returns {got!r} (expected {want!r})")
+    except _AE as ex_:
+        unk = str(ex_)
+    r.check3(None if unk else not bad, rid, f"{rd.qualname}#incomplete-line",
+             f"{bad[:2]}: a line that does not end with the delimiter is the rest of a message whose sender died (readline() returns it at end-of-stream); it must not be "
+             "decoded and handed out as a message", loc=rd.loc, unknown_msg=f"read is outside the evaluated language: {unk}")
